@@ -1,58 +1,171 @@
-import AfkakProofs.Consumer.InvC
+import AfkakProofs.Consumer.IncFacts
 /-!
 # `G` is preserved by message processing, `stop()`, `shutdown()`, and by every event
 -/
 namespace Afkak.Proofs.Consumer
 open Afkak.Consumer Afkak.Monitor Afkak.Consts
 
-theorem lastOff_getLast : ∀ (l : List Msg) (m : Msg), l.getLast? = some m → lastOff l = some m.off
-  | [], _, h => by simp at h
-  | [a], m, h => by simp at h; simp [lastOff, h]
-  | a :: b :: l, m, h => by
-    have : (b :: l).getLast? = some m := by simpa [List.getLast?_cons_cons] using h
-    simpa [lastOff] using lastOff_getLast (b :: l) m this
+variable [EnvHyp]
+
+/-- entering the processor call: everything but the increasing-delivery part -/
+theorem procEnter_g5 {cfg : Cfg} {s : St} (hs : G cfg s) (hp : s.proc = none) (hf : s.frame = none)
+    (hb : s.msgBlock = true ∨ s.stopping = true ∨ s.startD = .none)
+    (blk rest' : List Msg) (m : Msg) (hlo : lastOff blk = some m.off) :
+    G1 (procEnter blk rest' m.off s) ∧ Gsf (procEnter blk rest' m.off s) ∧ Gres (procEnter blk rest' m.off s) ∧
+      Gack (procEnter blk rest' m.off s) ∧ Gfo (procEnter blk rest' m.off s) := by
+  unfold procEnter
+  obtain ⟨⟨h1, h2, h2b, h3, h4, h5, h6, h7, h8, h9, h10, h11, h12, h13⟩,
+          ⟨k1, k2, k3, k4, k5, k6⟩, ⟨r1, r2⟩, ⟨a1, a2, a3⟩, ⟨f1, f2, f3⟩, -, -⟩ := hs
+  exact ⟨by g1_fields, by gsf_fields, by gres_fields, by gack_fields, by gfo_fields⟩
 
 /-- entering the processor call -/
 theorem procEnter_g {cfg : Cfg} {s : St} (hs : G cfg s) (hp : s.proc = none) (hf : s.frame = none)
     (hb : s.msgBlock = true ∨ s.stopping = true ∨ s.startD = .none)
-    (blk rest' : List Msg) (m : Msg) (hl : blk.getLast? = some m) :
-    G cfg (procEnter blk rest' m.off s) := by
+    (n : Nat) (rest : List Msg) (m : Msg) (hl : (rest.take n).getLast? = some m)
+    (hli : EnvHyp.sane → LoopInc cfg rest s) (hlp : LoopPay rest s) :
+    G cfg (procEnter (rest.take n) (rest.drop n) m.off s) := by
   have hlo := lastOff_getLast _ _ hl
+  have hi := hs.inc
+  have hpay := hs.pay
+  obtain ⟨g1, g2, g3, g4, g5⟩ := procEnter_g5 hs hp hf hb (rest.take n) (rest.drop n) m hlo
+  refine ⟨g1, g2, g3, g4, g5, ?_, ?_⟩
+  · unfold procEnter
+    have hst := payStep_proc (runR C02.payStep {} s.out) (rest.take n) (fun x hx => hlp x (List.mem_of_mem_take hx))
+    constructor
+    · simp only [emit, runR_cons, hst]; exact hpay.payOk
+    · intro fr hfr x hx
+      simp only [emit, runR_cons, hst]
+      simp only [Option.some.injEq] at hfr
+      subst hfr
+      exact hlp x (List.mem_of_mem_drop hx)
+    · intro g hg
+      simp only [emit] at hg
+      rw [hp] at hg; cases hg
+    · intro r hr x hx
+      simp only [emit, runR_cons, hst]
+      exact hpay.payParked r hr x hx
+  clear g1 g2 g3 g4 g5
   unfold procEnter
-  gleaf hs
+  intro hP
+  obtain ⟨i1, i2a, i2b, i2c, i2d, i2e, i3, i4, i5, i6, i7⟩ := hi hP
+  obtain ⟨hn, hab⟩ := hli hP
+  obtain ⟨t1, t2, t3⟩ := incFrom_take_drop n rest none m hn hl
+  obtain ⟨st1, st2⟩ := incStep_proc cfg.reset.isSome (runR (C02.incStep cfg.reset.isSome) {} s.out) (rest.take n) m hl t1
+  have key : (C02.incStep cfg.reset.isSome (runR (C02.incStep cfg.reset.isSome) {} s.out) (.ob (.proc (rest.take n)))).bad = false ∧
+      (C02.incStep cfg.reset.isSome (runR (C02.incStep cfg.reset.isSome) {} s.out) (.ob (.proc (rest.take n)))).last = some m.off ∧
+      ((C02.incStep cfg.reset.isSome (runR (C02.incStep cfg.reset.isSome) {} s.out) (.ob (.proc (rest.take n)))).armed =
+          (runR (C02.incStep cfg.reset.isSome) {} s.out).armed ∨ NoArmNeed s) ∧
+      ((C02.incStep cfg.reset.isSome (runR (C02.incStep cfg.reset.isSome) {} s.out) (.ob (.proc (rest.take n)))).armed = true ∨
+          topOff m.off (rest.drop n) < s.fetchOffset) := by
+    rcases hab with ⟨ha1, ha2⟩ | ⟨hb1, hb2, hb3⟩
+    · rw [st1 (incFrom_take_drop n rest _ m ha1 hl).1]
+      refine ⟨i1, rfl, Or.inl rfl, ?_⟩
+      rcases ha2 with h | h
+      · exact Or.inl h
+      · exact Or.inr (h _ t3)
+    · obtain ⟨q1, q2⟩ := st2 hb1
+      exact ⟨q2.trans i1, q1, Or.inr hb2, Or.inr (hb3 _ t3)⟩
+  have hgoal : ∀ M' : C02.IncSt, M'.bad = false → M'.last = some m.off →
+      (M'.armed = (runR (C02.incStep cfg.reset.isSome) {} s.out).armed ∨ NoArmNeed s) →
+      (M'.armed = true ∨ topOff m.off (rest.drop n) < s.fetchOffset) →
+      incFrom (some m.off) (rest.drop n) = true →
+      ∀ blk, C02.incStep cfg.reset.isSome (runR (C02.incStep cfg.reset.isSome) {} s.out) (.ob (.proc blk)) = M' →
+      Ginc cfg { emit (.proc blk) s with script := s.script.tail, frame := some { rest := rest.drop n, last := m.off } } := by
+    clear key st1 st2 t1 t2 t3 hn hab hli hi hlo hl hs
+    intro M' q1 q2 q3 q4 q5 blk hM
+    unfold NoArmNeed at q3
+    generalize rest.drop n = rest' at *
+    constructor <;> simp only [emit, runR_cons, hM] <;> grind
+  exact hgoal _ key.1 key.2.1 key.2.2.1 key.2.2.2 t2 _ rfl
 
 theorem procLeave_keeps (res : PRes) (rest' : List Msg) (last : Int) (s : St) :
     (procLeave res rest' last s).stopping = s.stopping ∧ (procLeave res rest' last s).msgBlock = s.msgBlock ∧
       (procLeave res rest' last s).startD = s.startD := by
   unfold procLeave emit; grind
 
+section
+variable {cfg : Cfg} {s : St} (hs : G cfg s) (rest' : List Msg) (last : Int)
+  (hf : s.frame = some { rest := rest', last := last })
+include hs hf
+
+theorem procLeave_g_ok : G cfg { emit (.procRet .ok) s with frame := none, lastProcessed := some last } := by
+  have hp : s.proc = none := hs.g1.frameProc (by simp [hf])
+  have hb := hs.g1.frameBlock (by simp [hf])
+  have hle : EnvHyp.sane → last ≤ topOff last rest' := fun hP => incFrom_le_top _ _ ((hs.inc hP).incFrame _ hf).2.1
+  gleaf hs
+
+theorem procLeave_g_err (k : ErrKind) (t : Nat) : G cfg { emit (.procRet (.err k t)) s with frame := none } := by
+  have hp : s.proc = none := hs.g1.frameProc (by simp [hf])
+  have hb := hs.g1.frameBlock (by simp [hf])
+  have hle : EnvHyp.sane → last ≤ topOff last rest' := fun hP => incFrom_le_top _ _ ((hs.inc hP).incFrame _ hf).2.1
+  gleaf hs
+
+theorem procLeave_g_cancel : G cfg { emit .procCancel (emit (.procRet .defer) s) with frame := none } := by
+  have hp : s.proc = none := hs.g1.frameProc (by simp [hf])
+  have hb := hs.g1.frameBlock (by simp [hf])
+  have hle : EnvHyp.sane → last ≤ topOff last rest' := fun hP => incFrom_le_top _ _ ((hs.inc hP).incFrame _ hf).2.1
+  gleaf hs
+
+theorem procLeave_g_defer (hc : ¬(s.stopping || s.startD == .none) = true) :
+    G cfg { emit (.procRet .defer) s with frame := none, proc := some { rest := rest', last := last, shutWait := false } } := by
+  have hp : s.proc = none := hs.g1.frameProc (by simp [hf])
+  have hb := hs.g1.frameBlock (by simp [hf])
+  have hle : EnvHyp.sane → last ≤ topOff last rest' := fun hP => incFrom_le_top _ _ ((hs.inc hP).incFrame _ hf).2.1
+  have hpf : ∀ x ∈ rest', x ∈ (runR C02.payStep {} s.out).seen := hs.pay.payFrame _ hf
+  gleaf hs
+
+end
+
 /-- leaving the processor call -/
 theorem procLeave_good {cfg : Cfg} {s0 s : St} (hs : G cfg s) (rest' : List Msg) (last : Int)
     (hf : s.frame = some { rest := rest', last := last }) (hf0 : s0.frame = none) (res : PRes) :
     Good cfg s0 (procLeave res rest' last s) ∧
-      ((procLeave res rest' last s).proc.isSome → res = .defer) := by
+      ((procLeave res rest' last s).proc.isSome → res = .defer) ∧
+      (EnvHyp.sane → LoopA cfg rest' (procLeave res rest' last s)) ∧ LoopPay rest' (procLeave res rest' last s) := by
   have hp : s.proc = none := hs.g1.frameProc (by simp [hf])
-  have hb := hs.g1.frameBlock (by simp [hf])
+  have hfr := fun hP => (hs.inc hP).incFrame _ hf
+  have hP' : ∀ x : St, KeepsP s x → LoopPay rest' x := fun x hk => LoopPay.keeps hk (hs.pay.payFrame _ hf)
+  have hA : ∀ x : St, KeepsI cfg s x → EnvHyp.sane → LoopA cfg rest' x := by
+    intro x hk hP
+    obtain ⟨q1, q2, q3⟩ := hfr hP
+    simp only [] at q1 q2 q3
+    refine LoopA.keeps hk ⟨by rw [q1]; exact q2, ?_⟩
+    rcases q3 with h | h
+    · exact Or.inl h
+    · refine Or.inr fun v hv => ?_
+      simpa [topOff, hv] using h
   unfold procLeave
   cases res with
   | ok =>
-    refine ⟨⟨?_, by simp [hf0]⟩, ?_⟩
-    · gleaf hs
+    refine ⟨⟨procLeave_g_ok hs rest' last hf, by simp [hf0]⟩, ?_, ?_, ?_⟩
     · simp [emit, hp]
+    · refine hA _ ⟨?_, rfl⟩
+      simp only [emit, runR_cons, incStep_procRet]
+    · refine hP' _ ?_
+      simp only [KeepsP, emit, runR_cons, payStep_procRet]
   | err k t =>
-    refine ⟨⟨?_, by simp [hf0]⟩, ?_⟩
-    · gleaf hs
+    refine ⟨⟨procLeave_g_err hs rest' last hf k t, by simp [hf0]⟩, ?_, ?_, ?_⟩
     · simp [emit, hp]
+    · refine hA _ ⟨?_, rfl⟩
+      simp only [emit, runR_cons, incStep_procRet]
+    · refine hP' _ ?_
+      simp only [KeepsP, emit, runR_cons, payStep_procRet]
   | defer =>
     simp only []
     split
-    · refine ⟨⟨?_, by simp [hf0]⟩, ?_⟩
-      · gleaf hs
+    · refine ⟨⟨procLeave_g_cancel hs rest' last hf, by simp [hf0]⟩, ?_, ?_, ?_⟩
       · simp
+      · refine hA _ ⟨?_, rfl⟩
+        simp only [emit, runR_cons, incStep_procRet, incStep_procCancel]
+      · refine hP' _ ?_
+        simp only [KeepsP, emit, runR_cons, payStep_procRet, payStep_procCancel]
     · rename_i hc
-      refine ⟨⟨?_, by simp [hf0]⟩, ?_⟩
-      · gleaf hs
+      refine ⟨⟨procLeave_g_defer hs rest' last hf hc, by simp [hf0]⟩, ?_, ?_, ?_⟩
       · simp
+      · refine hA _ ⟨?_, rfl⟩
+        simp only [emit, runR_cons, incStep_procRet]
+      · refine hP' _ ?_
+        simp only [KeepsP, emit, runR_cons, payStep_procRet]
 
 section
 variable {cfg : Cfg} {inner : Ops} (hin : OpsPres cfg inner) (hc : OpsPN Calm inner)
@@ -66,17 +179,20 @@ def LoopPre (s : St) : Prop :=
   s.proc = none ∧ s.frame = none ∧ (s.msgBlock = true ∨ s.stopping = true ∨ s.startD = .none)
 
 /-- one iteration, given that the rest of the loop is fine -/
-theorem procBody_good (k : St → St × Bool) {s0 : St}
-    (hk : ∀ s', Good cfg s0 s' → LoopPre s' → Good cfg s0 (k s').1)
-    (blk rest' : List Msg) (m : Msg) (hl : blk.getLast? = some m) (e : PEntry)
-    {s : St} (h : Good cfg s0 s) (hpre : LoopPre s) :
-    Good cfg s0 (procBody cfg inner k blk rest' m.off e s).1 := by
+theorem procBody_good (k : St → St × Bool) {s0 : St} (n : Nat) (rest : List Msg)
+    (hk : ∀ s', Good cfg s0 s' → LoopPre s' → (EnvHyp.sane → LoopInc cfg (rest.drop n) s') → LoopPay (rest.drop n) s' →
+      Good cfg s0 (k s').1)
+    (m : Msg) (hl : (rest.take n).getLast? = some m) (e : PEntry)
+    {s : St} (h : Good cfg s0 s) (hpre : LoopPre s) (hli : EnvHyp.sane → LoopInc cfg rest s) (hlp : LoopPay rest s) :
+    Good cfg s0 (procBody cfg inner k (rest.take n) (rest.drop n) m.off e s).1 := by
   obtain ⟨hp, hf, hb⟩ := hpre
   have hfr0 : s0.frame = none := by rw [← h.2]; exact hf
-  have g1 := procEnter_g h.1 hp hf hb blk rest' m hl
+  have g1 := procEnter_g h.1 hp hf hb n rest m hl hli hlp
+  generalize rest.take n = blk at *
+  generalize rest.drop n = rest' at *
   have g2 := procActs_good hin e.acts (Good.refl g1)
   have f2 : (procActs inner e.acts (procEnter blk rest' m.off s)).frame = some { rest := rest', last := m.off } := g2.2
-  obtain ⟨g3, p3⟩ := procLeave_good g2.1 _ _ f2 hfr0 e.res
+  obtain ⟨g3, p3, l3, y3⟩ := procLeave_good g2.1 _ _ f2 hfr0 e.res
   obtain ⟨st3, mb3, sd3⟩ := procLeave_keeps e.res rest' m.off (procActs inner e.acts (procEnter blk rest' m.off s))
   have fb2 := g2.1.g1.frameBlock (by rw [f2]; rfl)
   unfold procBody
@@ -96,6 +212,7 @@ theorem procBody_good (k : St → St × Bool) {s0 : St}
     · exact g4
     · rename_i hcont
       refine hk _ g4 ⟨k1.trans p3', by rw [g4.2]; exact hfr0, ?_⟩
+        (fun hP => ((l3 hP).keeps (autoCommit_keepsI cfg true s3)).loopInc) (y3.keeps (autoCommit_keepsP cfg true s3))
       left
       grind
   | err kd t =>
@@ -112,6 +229,7 @@ theorem procBody_good (k : St → St × Bool) {s0 : St}
       · exact g4
       · rename_i hcont _
         refine hk _ g4 ⟨k1.trans p3', by rw [g4.2]; exact hfr0, ?_⟩
+          (fun hP => ((l3 hP).keeps (handleProcessorError_keepsI cfg _ s3)).loopInc) (y3.keeps (handleProcessorError_keepsP _ s3))
         left
         grind
   | defer =>
@@ -122,30 +240,33 @@ theorem procBody_good (k : St → St × Bool) {s0 : St}
 
 /-- The processing loop, entered with no generator suspended or executing. -/
 theorem procLoop_good : ∀ (fuel : Nat) (rest : List Msg) {s0 s : St}, Good cfg s0 s → LoopPre s →
-    Good cfg s0 (procLoop cfg inner fuel rest s).1 := by
+    (EnvHyp.sane → LoopInc cfg rest s) → LoopPay rest s → Good cfg s0 (procLoop cfg inner fuel rest s).1 := by
   intro fuel
   induction fuel with
-  | zero => intro rest s0 s h _; simpa [procLoop] using h
+  | zero => intro rest s0 s h _ _ _; simpa [procLoop] using h
   | succ n ih =>
-    intro rest s0 s h hpre
+    intro rest s0 s h hpre hli hlp
     unfold procLoop
     split
     · exact h
     · split
       · exact h
       · rename_i lastMsg hl
-        exact procBody_good hin _ (fun s' h' p' => ih _ h' p') _ _ lastMsg hl _ h hpre
+        exact procBody_good hin _ _ rest (fun s' h' p' l' y' => ih _ h' p' l' y') lastMsg hl _ h hpre hli hlp
 
 /-- `finally: … _process_messages(messages)` with no block in progress -/
-theorem deliverBlock_good (msgs : List Msg) {s0 s : St} (h : Good cfg s0 s) (hp : s.proc = none) (hf : s.frame = none) :
+theorem deliverBlock_good (msgs : List Msg) {s0 s : St} (h : Good cfg s0 s) (hp : s.proc = none) (hf : s.frame = none)
+    (hli : EnvHyp.sane → msgs ≠ [] → LoopInc cfg msgs s) (hlp : LoopPay msgs s) :
     Good cfg s0 (deliverBlock cfg inner msgs s) := by
   have hf0 : s0.frame = none := by rw [← h.2]; exact hf
   unfold deliverBlock
   split
   · exact h
-  · simp only []
+  · rename_i hne
+    simp only []
     have h1 : Good cfg s0 { s with msgBlock := true } := by leaf h
-    have h2 := procLoop_good hin (msgs.length + 1) msgs h1 ⟨hp, hf, Or.inl rfl⟩
+    have hne' : msgs ≠ [] := by intro he; simp [he] at hne
+    have h2 := procLoop_good hin (msgs.length + 1) msgs h1 ⟨hp, hf, Or.inl rfl⟩ (fun hP => hli hP hne') hlp
     generalize (procLoop cfg inner (msgs.length + 1) msgs { s with msgBlock := true }) = res at *
     obtain ⟨s2, done⟩ := res
     simp only [] at *
@@ -164,34 +285,71 @@ theorem deliverBlock_good (msgs : List Msg) {s0 s : St} (h : Good cfg s0 s) (hp 
 include hc in
 /-- `_handle_fetch_response` after `self._request_d = None` -/
 theorem fetchTail_good (via : Bool) (r : Reply) {s0 s : St} (h : Good cfg s0 s) (hp : s.proc = none) (hf : s.frame = none)
-    (hq : activeReq s.requestD = none) (hpk : s.parked = none) : Good cfg s0 (fetchTail cfg inner via r s) := by
+    (hq : activeReq s.requestD = none) (hpk : s.parked = none) (hrq : s.requestD = .none)
+    (hr : EnvHyp.sane → ReplyOk r) (hrs : ∀ x ∈ r.msgs, x ∈ (runR C02.payStep {} s.out).seen) :
+    Good cfg s0 (fetchTail cfg inner via r s) := by
   unfold fetchTail
   simp only []
-  have h1 : Good cfg s0 { s with fetchOffset := (extract s.fetchOffset r.msgs).2 } := by leaf h
+  obtain ⟨e1, e2, e3⟩ := extract_spec r.msgs s.fetchOffset
+  have hmono : s.fetchOffset ≤ (extract s.fetchOffset r.msgs).2 := by
+    have := incFrom_le_top _ _ e1
+    omega
+  have hpos : EnvHyp.sane → (extract s.fetchOffset r.msgs).2 = s.fetchOffset ∨ 0 < (extract s.fetchOffset r.msgs).2 := by
+    intro hP
+    cases hm : (extract s.fetchOffset r.msgs).1 with
+    | nil => left; rw [e3, hm]; simp [topOff, lastOff]
+    | cons c t =>
+      right
+      obtain ⟨v, hv⟩ := lastOff_cons_some c t
+      rw [← hm] at hv
+      obtain ⟨y, hy, hyv⟩ := lastOff_mem _ _ hv
+      have := (hr hP).1 y (e2 y hy)
+      rw [e3]; simp only [topOff, hv, Option.getD_some]; omega
+  have c2 : offsetEarliest = -2 := rfl
+  have c3 : offsetLatest = -1 := rfl
+  have c4 : offsetCommitted = -101 := rfl
+  have hL : ∀ x : St, runR (C02.incStep cfg.reset.isSome) {} x.out = runR (C02.incStep cfg.reset.isSome) {} s.out →
+      x.fetchOffset = (extract s.fetchOffset r.msgs).2 → x.requestD = .none →
+      EnvHyp.sane → (extract s.fetchOffset r.msgs).1 ≠ [] → LoopInc cfg (extract s.fetchOffset r.msgs).1 x :=
+    fun x h1 h2 h3 hP hne => extract_loop (h.1.inc hP) hf hp r (hr hP) h1 h2 h3 hne
+  have hY : ∀ x : St, KeepsP s x → LoopPay (extract s.fetchOffset r.msgs).1 x :=
+    fun x hk => LoopPay.keeps hk (fun y hy => hrs y (e2 y hy))
+  clear e1 e2 e3
+  generalize hfo' : (extract s.fetchOffset r.msgs).2 = fo' at *
+  generalize hmsgs : (extract s.fetchOffset r.msgs).1 = msgs at *
+  have h1 : Good cfg s0 { s with fetchOffset := fo' } := by leaf h
   split
-  · exact (retryFetch_pres cfg _).step (deliverBlock_good hin _ h1 hp hf)
+  · exact (retryFetch_pres cfg _).step (deliverBlock_good hin _ h1 hp hf (hL _ rfl rfl hrq) (hY _ rfl))
   · split
-    · exact (retryFetch_pres cfg _).step (deliverBlock_good hin _ (by leaf h) hp hf)
+    · exact (retryFetch_pres cfg _).step (deliverBlock_good hin _ (by leaf h) hp hf (hL _ rfl rfl hrq) (hY _ rfl))
     · have h2 := (startErrback_pres cfg .tooSmall).step h1
-      obtain ⟨k1, _, _, _⟩ := startErrback_keeps .tooSmall { s with fetchOffset := (extract s.fetchOffset r.msgs).2 }
-      have h3 := deliverBlock_good hin (extract s.fetchOffset r.msgs).1 h2 (k1.trans hp) (by rw [h2.2, ← h.2]; exact hf)
+      have hk := startErrback_keeps .tooSmall { s with fetchOffset := fo' }
+      have hki := startErrback_keepsI cfg .tooSmall { s with fetchOffset := fo' }
+      have k1 := hk.1
+      have h3 := deliverBlock_good hin msgs h2 (k1.trans hp) (by rw [h2.2, ← h.2]; exact hf)
+        (hL _ hki.1 hki.2 (hk.2.2.2.2.2.1.trans hrq)) (hY _ (startErrback_keepsP .tooSmall _))
       split
-      · have hk := startErrback_keeps .tooSmall { s with fetchOffset := (extract s.fetchOffset r.msgs).2 }
-        have hcm := deliverBlock_calm (cfg := cfg) hc (extract s.fetchOffset r.msgs).1 _
-          (calm_ok.upd (s := { s with fetchOffset := (extract s.fetchOffset r.msgs).2 }) ⟨hp, hq, hpk⟩ hk)
-        exact handleFetchError_good cfg _ h3 hcm.1 hcm.2
+      · have hcm := deliverBlock_calm (cfg := cfg) hc msgs _
+          (calm_ok.upd (s := { s with fetchOffset := fo' }) ⟨hp, hq, hpk⟩ hk)
+        exact handleFetchError_good cfg _ h3 hcm.1 hcm.2 (fun _ ho => by simp [Fail.isOutOfRange] at ho)
       · exact h3
-  · have h3 := deliverBlock_good hin (extract s.fetchOffset r.msgs).1 h1 hp hf
+  · rename_i kd t htail
+    have h3 := deliverBlock_good hin msgs h1 hp hf (hL _ rfl rfl hrq) (hY _ rfl)
     split
     · exact h3
-    · have hcm := deliverBlock_calm (cfg := cfg) hc (extract s.fetchOffset r.msgs).1
-        { s with fetchOffset := (extract s.fetchOffset r.msgs).2 } ⟨hp, hq, hpk⟩
-      exact handleFetchError_good cfg _ h3 hcm.1 hcm.2
+    · have hcm := deliverBlock_calm (cfg := cfg) hc msgs
+        { s with fetchOffset := fo' } ⟨hp, hq, hpk⟩
+      refine handleFetchError_good cfg _ h3 hcm.1 hcm.2 (fun hP ho => ?_)
+      have : kd = .outOfRange := by
+        cases kd <;> simp [Fail.isOutOfRange] at ho ⊢
+      subst this
+      exact absurd htail ((hr hP).2 t)
 
 include hc in
 /-- `_handle_fetch_response` for the event `fetchOk k r` (top level: the processor is not executing) -/
 theorem handleFetchResponse_good (k : Nat) (r : Reply) (c : Bool) {s : St} (hs : G cfg s) (hf : s.frame = none)
-    (hlc : (runR C03.ackStep {} s.out).lc = s.lastCommitted) (hreq : s.requestD = .pending k .fetch c) :
+    (hlc : (runR C03.ackStep {} s.out).lc = s.lastCommitted) (hreq : s.requestD = .pending k .fetch c)
+    (hr : EnvHyp.sane → ReplyOk r) :
     Good cfg s (handleFetchResponse cfg inner k r { s with out := .ev (.fetchOk k r) :: s.out }) := by
   have hx := Good.refl hs
   have hact : (runR C02.sfStep {} s.out).req = (if c then none else some k) := by
@@ -212,7 +370,8 @@ theorem handleFetchResponse_good (k : Nat) (r : Reply) (c : Bool) {s : St} (hs :
         | none => rfl
         | some r' => exact absurd (hs.sf.parkedBlock (by rw [hpp]; rfl)) hb
       unfold fetchBody
-      exact fetchTail_good hin hc false r (by leaf hx) hp hf rfl hpk
+      exact fetchTail_good hin hc false r (by leaf hx) hp hf rfl hpk rfl hr
+        (fun x hx => by simp [runR_cons, C02.payStep, hx])
 
 include hc in
 /-- the end of `_process_messages` when resumed -/
@@ -228,9 +387,24 @@ theorem finishFull_good {s0 s : St} (h : Good cfg s0 s) (hp : s.proc = none) (hf
       split
       · leaf h
       · unfold fetchBody
-        exact fetchTail_good hin hc true _ (by leaf h) hp hf rfl rfl
+        exact fetchTail_good hin hc true _ (by leaf h) hp hf rfl rfl rfl (fun hP => (h.1.inc hP).parkedNN _ hr)
+          (h.1.pay.payParked _ hr)
     · leaf h
   · exact h
+
+/-- what the suspended generator's remaining messages look like once its Deferred has fired -/
+theorem gen_loopA {s : St} (hs : G cfg s) (g : Gen) (hp : s.proc = some g) (x : St) (hk : KeepsI cfg s x) :
+    EnvHyp.sane → LoopA cfg g.rest x := by
+  intro hP
+  obtain ⟨q1, q2, q3⟩ := (hs.inc hP).incProc g hp
+  refine LoopA.keeps hk ⟨by rw [q1]; exact q2, ?_⟩
+  rcases q3 with h | h
+  · exact Or.inl h
+  · refine Or.inr fun v hv => ?_
+    simpa [topOff, hv] using h
+
+theorem gen_loopPay {s : St} (hs : G cfg s) (g : Gen) (hp : s.proc = some g) (x : St) (hk : KeepsP s x) : LoopPay g.rest x :=
+  LoopPay.keeps hk (hs.pay.payProc g hp)
 
 /-- The processor's Deferred fires (`x` = the trace item that says so: the event, or `procCancel`). -/
 theorem procFired_good (g : Gen) (r : Option Fail) (x : Item) {s : St} (hs : G cfg s) (hp : s.proc = some g)
@@ -240,8 +414,13 @@ theorem procFired_good (g : Gen) (r : Option Fail) (x : Item) {s : St} (hs : G c
     Good cfg s (procFired cfg g r { s with out := x :: s.out }) ∧
       (procFired cfg g r { s with out := x :: s.out }).proc = none ∧
       ((procFired cfg g r { s with out := x :: s.out }).msgBlock = true ∨
-        (procFired cfg g r { s with out := x :: s.out }).stopping = true) := by
+        (procFired cfg g r { s with out := x :: s.out }).stopping = true) ∧
+      (EnvHyp.sane → LoopA cfg g.rest (procFired cfg g r { s with out := x :: s.out })) ∧
+      LoopPay g.rest (procFired cfg g r { s with out := x :: s.out }) := by
   have h0 := Good.refl hs
+  have hgp := gen_loopPay hin hs g hp
+  have hle : EnvHyp.sane → g.last ≤ topOff g.last g.rest := fun hP => incFrom_le_top _ _ ((hs.inc hP).incProc g hp).2.1
+  have hgen := gen_loopA hin hs g hp
   unfold procFired
   cases r with
   | none =>
@@ -253,7 +432,11 @@ theorem procFired_good (g : Gen) (r : Option Fail) (x : Item) {s : St} (hs : G c
         · exact h
       have h1 : Good cfg s { ({ s with out := Item.ev Ev.procOk :: s.out } : St) with proc := none, lastProcessed := some g.last } := by leaf h0
       obtain ⟨k1, k2, k3, _⟩ := autoCommit_keeps cfg true { ({ s with out := Item.ev Ev.procOk :: s.out } : St) with proc := none, lastProcessed := some g.last }
-      exact ⟨(autoCommit_pres cfg true).step h1, k1, hb.imp (fun h => k3.trans h) (fun h => k2.trans h)⟩
+      refine ⟨(autoCommit_pres cfg true).step h1, k1, hb.imp (fun h => k3.trans h) (fun h => k2.trans h), ?_,
+        hgp _ (KeepsP.trans (b := { ({ s with out := Item.ev Ev.procOk :: s.out } : St) with proc := none, lastProcessed := some g.last })
+          (by simp only [KeepsP, runR_cons, payStep_procOk]) (autoCommit_keepsP cfg true _))⟩
+      exact hgen _ (KeepsI.trans (b := { ({ s with out := Item.ev Ev.procOk :: s.out } : St) with proc := none, lastProcessed := some g.last })
+        ⟨by simp only [runR_cons, incStep_procOk], rfl⟩ (autoCommit_keepsI cfg true _))
     · simp at h
   | some f =>
     obtain ⟨h, -⟩ | ⟨-, hx⟩ := hx
@@ -268,31 +451,52 @@ theorem procFired_good (g : Gen) (r : Option Fail) (x : Item) {s : St} (hs : G c
           leaf h0
         · leaf h0
       obtain ⟨k1, k2, k3, _⟩ := handleProcessorError_keeps f { ({ s with out := x :: s.out } : St) with proc := none }
-      exact ⟨(handleProcessorError_pres cfg f).step h1, k1, hb.imp (fun h => k3.trans h) (fun h => k2.trans h)⟩
+      refine ⟨(handleProcessorError_pres cfg f).step h1, k1, hb.imp (fun h => k3.trans h) (fun h => k2.trans h), ?_,
+        hgp _ (KeepsP.trans (b := { ({ s with out := x :: s.out } : St) with proc := none }) ?_ (handleProcessorError_keepsP f _))⟩
+      rotate_left
+      · obtain ⟨k, t, rfl⟩ | rfl := hx
+        · simp only [KeepsP, runR_cons, payStep_procErr]
+        · simp only [KeepsP, runR_cons, payStep_procCancel]
+      refine hgen _ (KeepsI.trans (b := { ({ s with out := x :: s.out } : St) with proc := none }) ⟨?_, rfl⟩ (handleProcessorError_keepsI cfg f _))
+      obtain ⟨k, t, rfl⟩ | rfl := hx
+      · simp only [runR_cons, incStep_procErr]
+      · simp only [runR_cons, incStep_procCancel]
 
 /-- `stop()`: the block is dropped and the suspended generator's Deferred cancelled, together. -/
 theorem procFired_stop_good (g : Gen) (f : Fail) {s : St} (hs : G cfg s) (hp : s.proc = some g) (hst : s.stopping = true) :
     Good cfg s (procFired cfg g (some f) (emit .procCancel (stopBlock s))) ∧
       (procFired cfg g (some f) (emit .procCancel (stopBlock s))).proc = none ∧
-      (procFired cfg g (some f) (emit .procCancel (stopBlock s))).stopping = true := by
+      (procFired cfg g (some f) (emit .procCancel (stopBlock s))).stopping = true ∧
+      (EnvHyp.sane → LoopA cfg g.rest (procFired cfg g (some f) (emit .procCancel (stopBlock s)))) ∧
+      LoopPay g.rest (procFired cfg g (some f) (emit .procCancel (stopBlock s))) := by
   have h0 := Good.refl hs
+  have hgp := gen_loopPay hin hs g hp
   have hb : s.msgBlock = true := hs.g1.procBlock (by rw [hp]; rfl)
+  have hle : EnvHyp.sane → g.last ≤ topOff g.last g.rest := fun hP => incFrom_le_top _ _ ((hs.inc hP).incProc g hp).2.1
+  have hgen := gen_loopA hin hs g hp
   have h1 : Good cfg s { emit .procCancel (stopBlock s) with proc := none } := by
     unfold stopBlock
     simp only [hb, if_true, emit]
     leaf h0
   obtain ⟨k1, k2, _, _⟩ := handleProcessorError_keeps f { emit .procCancel (stopBlock s) with proc := none }
   have hst' : (stopBlock s).stopping = true := by unfold stopBlock; split <;> exact hst
-  exact ⟨(handleProcessorError_pres cfg f).step h1, k1, k2.trans hst'⟩
+  refine ⟨(handleProcessorError_pres cfg f).step h1, k1, k2.trans hst', ?_,
+    hgp _ (KeepsP.trans (b := { emit .procCancel (stopBlock s) with proc := none }) ?_ (handleProcessorError_keepsP f _))⟩
+  rotate_left
+  · unfold stopBlock; split <;> simp only [KeepsP, emit, runR_cons, payStep_procCancel]
+  refine hgen _ (KeepsI.trans (b := { emit .procCancel (stopBlock s) with proc := none }) ⟨?_, ?_⟩ (handleProcessorError_keepsI cfg f _))
+  · unfold stopBlock; split <;> simp only [emit, runR_cons, incStep_procCancel]
+  · unfold stopBlock; split <;> rfl
 
 include hc in
 theorem procResume_good (g : Gen) (passed : Bool) {s0 s : St} (h : Good cfg s0 s) (hp : s.proc = none)
-    (hf : s.frame = none) (hb : s.msgBlock = true ∨ s.stopping = true) : Good cfg s0 (procResume cfg inner g passed s) := by
+    (hf : s.frame = none) (hb : s.msgBlock = true ∨ s.stopping = true) (hli : EnvHyp.sane → LoopA cfg g.rest s)
+    (hlp : LoopPay g.rest s) : Good cfg s0 (procResume cfg inner g passed s) := by
   unfold procResume
   split
   · exact h
   · simp only []
-    have h3 := procLoop_good hin (g.rest.length + 1) g.rest h ⟨hp, hf, hb.imp id Or.inl⟩
+    have h3 := procLoop_good hin (g.rest.length + 1) g.rest h ⟨hp, hf, hb.imp id Or.inl⟩ (fun hP => (hli hP).loopInc) hlp
     split
     · exact h3
     · rename_i hcond
@@ -312,8 +516,8 @@ theorem procResult_good (g : Gen) (r : Option Fail) (x : Item) {s : St} (hs : G 
     cases hff : s.frame with
     | none => rfl
     | some fr => exact absurd (hs.g1.frameProc (by rw [hff]; rfl)) (by rw [hp]; simp)
-  obtain ⟨g1, p1, b1⟩ := procFired_good hin g r x hs hp hb hlc hx
-  have h2 := fun p => procResume_good hin hc g p g1 p1 (by rw [g1.2]; exact hf) b1
+  obtain ⟨g1, p1, b1, l1, y1⟩ := procFired_good hin g r x hs hp hb hlc hx
+  have h2 := fun p => procResume_good hin hc g p g1 p1 (by rw [g1.2]; exact hf) b1 l1 y1
   unfold procResult
   simp only []
   split
